@@ -371,7 +371,7 @@ def do_replay(prop, path):
         "p=json.load(open(sys.argv[1]));vs=m.replay(p['case']);"
         "print(json.dumps(vs,default=str,indent=1));sys.exit(1 if vs else 0)" % prop
     )
-    r = subprocess.run(["/venv/bin/python", "-c", code, path], cwd=VERIF, env=env)
+    r = subprocess.run(["/venv/bin/python", "-c", code, path], cwd=VERIF, env=env, stderr=subprocess.DEVNULL)
     if r.returncode == 1:
         print(f"VIOLATION property={prop} replay={path}")
     return r.returncode
